@@ -1,6 +1,6 @@
 # C08 registry entry: see lib/registry.py for the field meanings
 PROP = {'rule': 'rapid-generated cases. drift: state machine (<=40 steps) over podAssignCache with a fake clock: OnAdd / repeated OnAdd / '
-         'Reserve / Unreserve|Forget / bound OnUpdate (also bound elsewhere) / OnUpdate(resources | spec.priority flip | conditions | '
+         'Reserve / Unreserve|Forget / bound OnUpdate (also bound elsewhere) / OnUpdate(resources | limits only (drop, =request, request+1, well above) | spec.priority flip | conditions | '
          'terminated | nodeName change | metadata only) / OnDelete (also tombstone) / NodeMetric add|update (update time aimed at '
          'assignTime+reportInterval and at estimation deadlines, +-1s/+-1ns; per-pod usage aimed at the estimate: =,+-1,/2,*2,0, missing, '
          'empty, wrong prod flag, dangling and nil entries; pods that opt out of estimation with all-zero custom scaling factors (cached '
